@@ -253,10 +253,9 @@ fn parse_duration<V: AsRef<str> + Into<String>>(
     };
 
     // Check if the parsed value is a reasonable duration, to avoid a panic from `from_secs_f64`
-    if v >= 0.0 && v <= Duration::MAX.as_secs_f64() && v.is_finite() {
-        Ok(Duration::from_secs_f64(v))
-    } else {
-        Err(TypedResponseError::invalid_value(field, value.into()))
+    match Duration::try_from_secs_f64(v) {
+        Ok(duration) => Ok(duration),
+        Err(e) => Err(TypedResponseError::invalid_value(field, value.into()).source(e)),
     }
 }
 
